@@ -17,11 +17,15 @@ package tcp
 
 //@ func closeWrite
 //@   prop C05
+//@   nocall Conn).Close
+//@   nocall CloseRead
 //@   modifies all, relayseq, relaycwat, relaycwconn
 //@   ghostdef relayseq == old(relayseq) + 1 && relaycwat == relayseq && relaycwconn == conn
 
 //@ func closeRead
 //@   prop C05
+//@   nocall Conn).Close
+//@   nocall CloseWrite
 //@   modifies all, relayseq, relaycrat, relaycrconn
 //@   ghostdef relayseq == old(relayseq) + 1 && relaycrat == relayseq && relaycrconn == conn
 
@@ -45,3 +49,33 @@ package tcp
 //@   prop C05 C06
 //@   modifies all
 //@   ensures @connection-or-error result1 == nil ==> result0 != nil
+
+// ---- C08/C06: endpoint changes reach the host set of the processor unchanged -----------------------------
+
+//@ func (*tcpProc).OnSvcHostAdd
+//@   prop C08 C06
+//@   requires p != nil && setok(p.hostSet) && cachefresh(p.hostSet) && forall k int :: 0 <= k && k < len(hosts) ==> hosts[k] != nil
+//@   requires @one-host-per-address-in-a-call forall a int, b int :: 0 <= a && a < b && b < len(hosts) ==> hosts[a].Addr != hosts[b].Addr
+//@   modifies mapof(p.hostSet.all), mapof(p.hostSet.healthyMain), mapof(p.hostSet.healthyBackup), aval
+//@   ensures @the-pushed-hosts-are-members-under-their-addresses result == nil && forall k int :: 0 <= k && k < len(hosts) ==> has(p.hostSet.all, hosts[k].Addr) && p.hostSet.all[hosts[k].Addr] == hosts[k]
+//@   ensures @the-usable-list-is-current cachefresh(p.hostSet)
+
+//@ func (*tcpProc).OnSvcHostRemove
+//@   prop C08 C06
+//@   requires p != nil && setok(p.hostSet) && cachefresh(p.hostSet) && forall k int :: 0 <= k && k < len(hosts) ==> hosts[k] != nil
+//@   modifies mapof(p.hostSet.all), mapof(p.hostSet.healthyMain), mapof(p.hostSet.healthyBackup), aval, heap("#closed")
+//@   ensures @the-removed-hosts-are-no-members result == nil && forall k int :: 0 <= k && k < len(hosts) ==> !has(p.hostSet.all, hosts[k].Addr)
+//@   ensures @the-usable-list-is-current cachefresh(p.hostSet)
+
+//@ func (*tcpProc).OnSvcAllHostReplace
+//@   prop C08 C06
+//@   requires p != nil && setok(p.hostSet) && cachefresh(p.hostSet) && forall k int :: 0 <= k && k < len(hosts) ==> hosts[k] != nil
+//@   requires @one-host-per-address-in-a-call forall a int, b int :: 0 <= a && a < b && b < len(hosts) ==> hosts[a].Addr != hosts[b].Addr
+//@   modifies mapof(p.hostSet.all), mapof(p.hostSet.healthyMain), mapof(p.hostSet.healthyBackup), aval, heap("#closed")
+//@   ensures @the-pushed-hosts-are-members-under-their-addresses result == nil && forall k int :: 0 <= k && k < len(hosts) ==> has(p.hostSet.all, hosts[k].Addr) && p.hostSet.all[hosts[k].Addr] == hosts[k]
+//@   ensures @the-usable-list-is-current cachefresh(p.hostSet)
+
+//@ func (*tcpProc).StopListen
+//@   prop C09
+//@   requires p != nil
+//@   callpre Drain @the-listener-of-this-processor-is-drained arg0 == p.ln
